@@ -191,13 +191,20 @@ def ctTerminals (spaths : List (List Nat)) : List (Nat × Nat × Nat) := spaths.
 /-- `_stereo_cis_trans_centers` -/
 def ctCenters (spaths : List (List Nat)) : List (Nat × Nat × Nat) := spaths.foldl centStep []
 
+/-- (path[len // 2], path[0], path[-1]) of an odd path -/
+def oddKeys (path : List Nat) : Option (Nat × Nat × Nat) :=
+  if path.length % 2 == 0 then none else
+  match path[path.length / 2]?, path.head?, path.getLast? with
+  | some c, some n, some m => some (c, n, m)
+  | _, _, _ => none
+
+def alleneStep (d : List (Nat × Nat × Nat)) (path : List Nat) : List (Nat × Nat × Nat) :=
+  match oddKeys path with
+  | some (c, n, m) => dictSet d c (n, m)
+  | none => d
+
 /-- `_stereo_allenes_terminals`: `{path[len(path) // 2]: (path[0], path[-1]) for path in … if len(path) % 2}` -/
-def alleneTerminals (spaths : List (List Nat)) : List (Nat × Nat × Nat) :=
-  spaths.foldl (fun d path =>
-    if path.length % 2 == 0 then d else
-    match path[path.length / 2]?, path.head?, path.getLast? with
-    | some c, some n, some m => dictSet d c (n, m)
-    | _, _, _ => d) []
+def alleneTerminals (spaths : List (List Nat)) : List (Nat × Nat × Nat) := spaths.foldl alleneStep []
 
 /-- everything the packer and the unpacker read from the perception, in one go -/
 structure Perceived where
